@@ -7,7 +7,9 @@
     - [LBegin k choice path m]   request k: storePool.Get() (the result is ANY pooled Store, [Some i],
                                  or a fresh one from New, [None]), id = AppendUint(id, AddUint64(&storeID,1), 36),
                                  findRoute, store.I = info or routeNotFound; the relay handler is entered
-    - [LWriteHeader k code]      the handler of request k calls W.WriteHeader(code)
+    - [LWrite k op]              the handler (or relay) of request k changes W.Status: [WriteHeader code] =
+                                 W.WriteHeader(code) (or a direct assignment, as Logger.Relay does), [Flush] =
+                                 W.Flush()/FlushError(), which record the implicit 200 when nothing was written yet
     - [LEnd k how]               the relay handler of request k is left: [Returned], [Recovered] (a panic of the
                                  route handler recovered by the relay, e.g. Logger.Relay) — then ServeHTTP resets
                                  the Store and Puts it back; or [Escaped] (the panic leaves ServeHTTP: neither
@@ -67,10 +69,16 @@ Definition new_mux (prefix : list N) : mux :=
   {| m_table := empty_table; m_routes := []; m_prefix := fit9 prefix; m_pool := []; m_next_id := 0%N; m_flights := [] |}.
 
 Inductive exit_kind := Returned | Recovered | Escaped.
+Inductive wop := WriteHeader (code : N) | Flush.
+Definition apply_wop (op : wop) (status : N) : N :=
+  match op with
+  | WriteHeader c => c
+  | Flush => if (status =? 0)%N then 200%N else status
+  end.
 Inductive label :=
 | LRegister (p m : list N)
 | LBegin (k : nat) (choice : option nat) (path method : list N)
-| LWriteHeader (k : nat) (code : N)
+| LWrite (k : nat) (op : wop)
 | LEnd (k : nat) (how : exit_kind)
 | LDrop (i : nat).
 
@@ -145,13 +153,13 @@ Definition step_gen (push : vslice -> list N -> option vslice) (reset_k : bool) 
         end
       end
     end
-  | LWriteHeader k code =>
+  | LWrite k op =>
     match find_flight k (m_flights m) with
     | None => Disabled
     | Some _ =>
       Ok {| m_table := m_table m; m_routes := m_routes m; m_prefix := m_prefix m; m_pool := m_pool m;
             m_next_id := m_next_id m;
-            m_flights := update_flight k (fun f => {| f_key := f_key f; f_store := with_status (f_store f) code;
+            m_flights := update_flight k (fun f => {| f_key := f_key f; f_store := with_status (f_store f) (apply_wop op (s_status (f_store f)));
                                                       f_info := f_info f; f_path := f_path f; f_method := f_method f;
                                                       f_ticket := f_ticket f |}) (m_flights m) |}
     end
